@@ -86,6 +86,12 @@ func (g *Graph) continueWalking(found chan x509.CertificateChain, start *GraphEd
 		return
 	}
 
+	// Every edge examined below certifies current's (subject, key). If that pair
+	// is already in the chain, following any of them would revisit it.
+	if soFar.SubjectAndKeyInChain(current.SubjectAndKey) {
+		return
+	}
+
 	// If we've traveled too far, just stop.
 	if len(soFar) >= maxIntermediateCount {
 		return
